@@ -230,6 +230,9 @@ func runC03(c *Ctx) {
 	c02R3(c, g)
 	c13Encode(c, "C03.R5", "C03.R5")
 	c13Decode(c, "C03.R5")
+	// what observers converge to: only newer entries applied, version backed by entries, compaction consistent
+	c02R2(c, g, "C03.R6")
+	c17All(c, g)
 }
 
 // c03Digest: Digest() covers every node; digest encode loops skip nothing.
